@@ -10,6 +10,7 @@ import (
 	"encoding/json"
 	"errors"
 	"fmt"
+	"google.golang.org/protobuf/proto"
 	"net"
 	"sort"
 	"strings"
@@ -89,6 +90,12 @@ var clients = []string{
 	// another registered node replays this node's (clear-text) authentication
 	// request behind its own valid certificate
 	"replay:", "replay:a",
+	// an authenticated client whose request carries client state: it no longer
+	// fits one ALPN entry, so the negotiated protocol is a full-size first chunk
+	"authstate:", "authstate:a",
+	// base-TLS clients whose protocol names are legal on the wire but unusual:
+	// not valid UTF-8, and of the maximum length
+	"base:h2,\xfa\xfa", "base:h2," + strings.Repeat("L", 255),
 }
 
 type world struct {
@@ -228,9 +235,9 @@ func (w *world) one(k kase, r *engine.Report) (string, string) {
 	}
 	addr := base.Addr().String()
 	switch {
-	case strings.HasPrefix(k.Client, "auth:"):
+	case strings.HasPrefix(k.Client, "auth:"), strings.HasPrefix(k.Client, "authstate:"):
 		var extras []string
-		if e := strings.TrimPrefix(k.Client, "auth:"); e != "" {
+		if e := k.Client[strings.Index(k.Client, ":")+1:]; e != "" {
 			extras = strings.Split(e, ",")
 		}
 		nonce := harness.Bytes("c17", 32)
@@ -242,6 +249,10 @@ func (w *world) one(k kase, r *engine.Report) (string, string) {
 		}
 		c := &harness.AuthClient{Request: &types.GenerateServerCertificatesRequest{CertificatePublicKeyPkix: w.node.K.Pkix, Nonce: nonce, NonceSignature: w.node.K.Sign(nonce)},
 			Chain: [][]byte{b.CertificateDer, b.CaCertificateDer}, Key: w.node.K.Priv, Preference: harness.CaKeyId(b.CaCertificateDer), ExtraProtos: extras}
+		if strings.HasPrefix(k.Client, "authstate:") {
+			c.Request.ClientState, _ = proto.Marshal(harness.Struct(map[string]any{"worker": "w_1234567890", "tags": []any{"a", "b", "c"}, "zone": strings.Repeat("z", 200)}))
+			c.Request.ClientStateSignature = w.node.K.Sign(c.Request.ClientState)
+		}
 		conn, err := c.Connect(addr)
 		if err != nil {
 			landed = "handshake-failed"
@@ -346,8 +357,8 @@ func (w *world) one(k kase, r *engine.Report) (string, string) {
 	// allowed destinations for this client
 	allowed := map[string]bool{}
 	switch {
-	case strings.HasPrefix(k.Client, "auth:"):
-		extras := strings.Split(strings.TrimPrefix(k.Client, "auth:"), ",")
+	case strings.HasPrefix(k.Client, "auth:"), strings.HasPrefix(k.Client, "authstate:"):
+		extras := strings.Split(k.Client[strings.Index(k.Client, ":")+1:], ",")
 		specific := false
 		for _, e := range extras {
 			if e == "PREF" {
@@ -544,7 +555,7 @@ func init() {
 	engine.Register(&engine.CheckDef{
 		ID:    "C17",
 		Level: "exploration",
-		Rule: "every subset of sub-listeners {a, b, __AUTH__, __UNAUTH__} (16) x native connections {off,on} x 17 client kinds (authenticated with extras [], [a], [b], [a,b], [x], [certificate-preference entry, a], [certificate-preference entry, x], [__AUTH__], [__UNAUTH__]; base-TLS clients offering [], [a], [__AUTH__], [__UNAUTH__], a certificate-preference entry; a fetch-only client; another registered node replaying this node's request behind its own certificate, with extras [] and [a]) x {base listener closure reported as net.ErrClosed, as an error value of its own, sub-listeners registered while Start is already running} = 1632 real topologies over the real InterceptingListener + SplitListener; the receiving sub-listener answers with its name so routing is observed deterministically; afterwards the base listener is closed, Start must stop without asking it again and every sub-listener must report net.ErrClosed; scheduler phase (sub-listener registry, get-or-create): 2-3 concurrent GetListener calls for the same / different names, with and without pre-registered names, and with Start stopping over a closed base listener at the same time, every interleaving within 2 preemptions (1 with the stop thread; +1 in the thorough tier, whose four- and three-plus-stop-caller scenarios use 2) plus all interleavings up to sleep-set equivalence of the two-caller scenarios without pre-registered names and stop - all callers of one name must hold the one registered object and every handle must report closed after the stop; " +
+		Rule: "every subset of sub-listeners {a, b, __AUTH__, __UNAUTH__} (16) x native connections {off,on} x 21 client kinds (authenticated with extras [], [a], [b], [a,b], [x], [certificate-preference entry, a], [certificate-preference entry, x], [__AUTH__], [__UNAUTH__]; base-TLS clients offering [], [a], [__AUTH__], [__UNAUTH__], a certificate-preference entry; a fetch-only client; another registered node replaying this node's request behind its own certificate, with extras [] and [a]; authenticated clients whose request carries client state and spans several ALPN entries; base-TLS clients offering a non-UTF-8 name and a 255-byte name) x {base listener closure reported as net.ErrClosed, as an error value of its own, sub-listeners registered while Start is already running} = 2016 real topologies over the real InterceptingListener + SplitListener; the receiving sub-listener answers with its name so routing is observed deterministically; afterwards the base listener is closed, Start must stop without asking it again and every sub-listener must report net.ErrClosed; scheduler phase (sub-listener registry, get-or-create): 2-3 concurrent GetListener calls for the same / different names, with and without pre-registered names, and with Start stopping over a closed base listener at the same time, every interleaving within 2 preemptions (1 with the stop thread; +1 in the thorough tier, whose four- and three-plus-stop-caller scenarios use 2) plus all interleavings up to sleep-set equivalence of the two-caller scenarios without pre-registered names and stop - all callers of one name must hold the one registered object and every handle must report closed after the stop; " +
 			"distinct_nontrivial counts topologies (distinct by construction) that were routed and judged",
 		Assumptions: []string{"when several registered names match the client's extras any of them may receive the connection (map iteration order)", "GetListener after close is documented as unsupported and not exercised"},
 		Shards:      func(c *engine.Ctx) int { return 8 },
